@@ -8,8 +8,10 @@ impl DiffType {
     //@ stub src/delta.rs DiffType::n_parents spec=delta.n_parents
 }
 impl AmbiguousDiffMinusCounter {
-    // assumed: decrements an isize (underflow needs 2^63 input lines; not an obligation)
+    /// what counting one line makes of the counter (U30 has the function itself under contract)
+    pub uninterp spec fn counted_once(&self) -> Self;
     //@ stub src/handlers/hunk_header.rs AmbiguousDiffMinusCounter::count_line
+    //@| ensures *final(self) == old(self).counted_once(),
 }
 
 impl<'p> Painter<'p> {
@@ -28,7 +30,7 @@ impl StateMachine<'_> {
     //@ fn src/handlers/hunk.rs StateMachine::test_hunk_line
     //@| ensures r == (self.state is HunkHeader || self.state is HunkZero || self.state is HunkMinus || self.state is HunkPlus),
     //@ fn src/handlers/hunk.rs StateMachine::handle_hunk_line spec=hunk.handle_hunk_line
-    //@before <<<if let State::HunkHeader(_, parsed_hunk_header, line, raw_line) = &self.state.clone()>>>| assert(/* @C01,C02,C11:hhl.order.step */ all_lines(&self.painter) =~= all_lines(&old(self).painter));
+    //@before? <<<if let State::HunkHeader(_, parsed_hunk_header, line, raw_line) = &self.state.clone()>>>| assert(/* @C01,C02,C11:hhl.order.step */ all_lines(&self.painter) =~= all_lines(&old(self).painter));
     //@before <<<self.state = match new_line_state(>>>| assert(/* @C01,C02,C11:hhl.order.step */ all_lines(&self.painter) =~= all_lines(&old(self).painter)); let ghost mid = all_lines(&self.painter);
     //@before <<<let n_parents = diff_type.n_parents(); let line = prepare(&self.line, n_parents, self.config); let state = HunkMinus(diff_type, raw_line);>>>| assert(/* @C01,C02,C11:hhl.order.step */ all_lines(&self.painter) =~= mid); assert(self.painter.plus_lines@.len() == 0);
     //@after <<<self.painter.minus_lines.push((line, state.clone()));>>>| assert(/* @C01,C02,C11:hhl.order.step */ all_lines(&self.painter) =~= mid.push(self.painter.minus_lines@.last().0@));
@@ -38,10 +40,13 @@ impl StateMachine<'_> {
     //@before <<<self.painter.output_buffer.push('\n');>>>| assert(self.painter.output_buffer@ == buf0 + expand_spec(self.raw_line@, &self.config.tab_cfg));
     //@after <<<self.painter.paint_zero_line(&line, state.clone());>>>| assert(/* @C01,C02,C11:hhl.order.step */ all_lines(&self.painter) =~= mid.push(line@));
     //@after <<<self.painter.output_buffer.push('\n');>>>| assert(/* @C01,C02,C11:hhl.order.step */ all_lines(&self.painter) =~= mid.push(vis(expand_spec(self.raw_line@, &self.config.tab_cfg))));
-    //@before <<<if !self.test_hunk_line() {>>>| let ghost mut fell_through = false;
+    //@before <<<if !self.test_hunk_line() {>>>| let ghost mut fell_through = false; let ghost mut header_shown = false;
+    //@after? <<<self.emit_hunk_header_line(parsed_hunk_header, line, raw_line)?;>>>| proof { header_shown = true; }
+    //@before <<<self.state = match new_line_state(>>>| assert(/* @C02,C14:a.hunk.header.that.was.held.back.is.shown.before.the.first.line.of.its.hunk */ old(self).state is HunkHeader ==> header_shown);
     //@before <<<self.painter.output_buffer.push('\n');>>>| proof { fell_through = true; }
     //@before <<<self.painter.emit()?; Ok(true)>>>| assert(/* @C01:a.line.of.a.hunk.that.is.no.hunk.line.leaves.the.marker.columns.of.the.hunk.alone */ fell_through ==> self.state == State::HunkZero(hunk_dt(old(self).state), None));
     //@before <<<Ok(true)>>>| assert(/* @C01,C02,C11:hhl.order.step */ all_lines(&self.painter).drop_last() =~= all_lines(&old(self).painter));
+    //@before <<<Ok(true)>>>| assert(/* @C01,C10:the.lines.of.the.old.file.are.counted.once.each.and.no.other.line.is */ self.minus_line_counter == (if !fell_through && (self.state is HunkMinus || self.state is HunkZero) { old(self).minus_line_counter.counted_once() } else { old(self).minus_line_counter }));
 }
 
 } // verus!
